@@ -78,6 +78,31 @@ def router_program(pt, k):
     return r
 
 
+def router_fail_program(pt, k):
+    """a router whose clear-state program needs version 7 (sha3_256): compile_program(version=6) evaluates the whole approval
+    program and then fails.  Void methods first, one value-returning method last (keeps clear of the known repeat:router finding)."""
+    from pyteal import abi
+    r = pt.Router("h", pt.BareCallActions(no_op=pt.OnCompleteAction.create_only(pt.Approve())),
+                  clear_state=pt.Seq(pt.Pop(pt.Sha3_256(pt.Txn.sender())), pt.Approve()))
+
+    @r.method
+    def put(key: abi.DynamicBytes, n: abi.Uint64):
+        acc = pt.ScratchVar(pt.TealType.bytes)
+        i = pt.ScratchVar(pt.TealType.uint64)
+        return pt.Seq(acc.store(key.get()),
+                      pt.For(i.store(pt.Int(0)), i.load() < n.get(), i.store(i.load() + pt.Int(1))).Do(acc.store(pt.Sha256(acc.load()))),
+                      pt.App.globalPut(key.get(), acc.load()))
+
+    @r.method
+    def drop(key: abi.DynamicBytes):
+        return pt.App.globalDel(key.get())
+
+    @r.method
+    def add(a: abi.Uint64, b: abi.Uint64, *, output: abi.Uint64):
+        return output.set(a.get() + b.get() + pt.Int(k))
+    return r
+
+
 def main():
     job = json.loads(sys.argv[1])
     os.environ.setdefault("VERIF_REPO", job.get("repo", "/repo"))
@@ -126,6 +151,19 @@ def main():
                 if job.get("repeat_same_object"):
                     a2, c2, _ = r.compile_program(version=version)
                     d.append(hashlib.sha1((a2 + "||" + c2).encode()).hexdigest())
+            elif kind == "routerfail":
+                _, k, version = item
+                r = router_fail_program(pt, k)
+                if job.get("fail_first"):
+                    try:
+                        r.compile_program(version=6)
+                        d = ["ERR:the version-6 compilation did not fail"]
+                        out[json.dumps(item)] = d
+                        continue
+                    except (pt.TealInputError, pt.TealInternalError, pt.TealCompileError, pt.TealTypeError):
+                        pass
+                a1, c1, _ = r.compile_program(version=version)
+                d = [hashlib.sha1((a1 + "||" + c1).encode()).hexdigest()]
             out[json.dumps(item)] = d
         except Exception as ex:
             out[json.dumps(item)] = ["ERR:" + type(ex).__name__]
